@@ -42,7 +42,7 @@ LABELS = {'alpha': 5, 'beta': 0x1234, 'gamma_1': 255, 'zed': 0, 'omega': (1 << 4
 TOKEN_ALPHABET = ['+', '-', '*', '/', '%', '<<', '>>', '&', '|', '^', '(', ')', 'LSB(', 'BYTE0(', 'BYTE3(',
                   '7', '$1f', 'alpha', 'beta', '%101', '0x10', '12H', "'q'", '0']
 # characters / words that belong to no expression token: a sequence containing one is never well-formed
-FOREIGN = ['!', '#', '@', '{', '}', '[', ']', '~', '?', '=', '==', ':', '\\', '`', '"x"', '5.5', '1e3', '&&', '||', '**', '$', "''"]
+FOREIGN = ['!', '#', '@', '{', '}', '[', ']', '~', '?', '=', '==', ':', '\\', '`', '"x"', '5.5', '1e3', '&&', '||', '**', '$', "''", '0b101', '0o17', '1_000', '0x_ff', '1e', '0d9']
 
 ISA = {
     'general': {'address_size': 16, 'endian': 'little', 'registers': ['a']},
